@@ -98,10 +98,10 @@ TRow ==
                  /\ EncAccept(s, Ev.urlenc[k], UrlEncOk, UrlEncode)
                  /\ (UrlPlain(s) => Ev.urldec[k] = UrlDecode(s))
                  /\ (Strict => Ev.urldec[k] = UrlDecode(s))
-                 /\ Ev.rt_url[k] = s)
+                 /\ Ev.rt_url[k] = s
+                 /\ B64DecStr(s, Ev.b64dec_ok[k], Ev.b64dec[k]))     \* s itself as text for the decoder
           /\ EncAccept(s, Ev.b64enc[k], B64EncOk, B64Enc)
           /\ Ev.rt_b64_ok[k] = 1 /\ Ev.rt_b64[k] = s
-          /\ B64DecStr(s, Ev.b64dec_ok[k], Ev.b64dec[k])
 
 TraceInit == Init /\ l = 1
 TraceNext == TReset \/ TCall \/ TExplain \/ TRound \/ TSizes \/ TRow
